@@ -163,6 +163,16 @@ PROPS = {
         rule=HIST_RULE + "; PAR flows: push (authenticated / not, with credentials in the body, with a request_uri inside), use by the pushing / another client, twice, after expiry, with conflicting extra query parameters, unknown URIs, enforcement on/off",
         partial=["request validation of the push (redirect URI, response types) is C13's model; 'pushed values authoritative' is proved on the request the handlers receive and observed end to end through the redirect_uri / PKCE binding of the resulting code"],
     ),
+    "C19": dict(
+        modules=["Fosite.Props.C19"],
+        facts=True,
+        drivers=[dict(name="lockfacts", kind="lockfacts"), dict(name="stress", kind="stress", seconds={"quick": 4, "thorough": 60})],
+        rule="D7 facts: every method of storage.MemoryStore and hmac.HMACStrategy, and every getter of *Config, as extracted by go/ast on this run (lock / unlock / map access / intra-receiver call events in evaluation order; receiver fields assigned by getters); a method is non-trivial when it takes at least one lock; evaluations = methods extracted. Support: free-running go test -race stress (16 goroutines, overlapping codes / refresh tokens / request URIs / device codes, default-constructed and fully populated Config, deadlock watchdog), evaluations = operations completed",
+        assumptions=["the Go memory model and runtime are not modelled: the theorems are about the lock discipline of the source (which mutex is held at which map access, acquisition order, getter purity) and, through lockset_sound / no_lock_deadlock, about an RWMutex transition system of any number of threads running the extracted programs",
+                     "sharing through the values stored in the maps (Session pointers, stored requesters) is outside lock granularity; only the race-detector stress sees it (support, not proof)"],
+        partial=["interleaving-level theorems over the handler model (runSched: final state = fold of the executed steps, handed tokens were stored active) are not built yet",
+                 "token generation never repeating rests on rand_fresh (C06 mint theorems)"],
+    ),
     "C20": dict(
         modules=["Fosite.Props.C20"],
         drivers=[dict(name="render", kind="pure"), dict(name="hist", kind="hist")],
@@ -175,7 +185,107 @@ PROPS = {
 }
 
 
+def run_lock_facts(R, pid, d, work, seed, tier):
+    """C19, decided over regenerated facts: the Lean checkers (whose verdicts the C19 theorems fix by `decide`) are
+    run as an executable report; every reported line is a violation signature."""
+    import subprocess
+    res = dict(evaluations=0, distinct_nontrivial=set(), samples=[], monitor_hits=[], histogram={}, traces=0)
+    p = subprocess.run([R.FZDRIVER, "lock-report"], stdout=subprocess.PIPE, stderr=subprocess.PIPE, text=True, timeout=600)
+    lines = p.stdout.splitlines()
+    if p.returncode != 0 or not lines:
+        res["corr_diff"] = {"driver": "lockfacts", "error": "lock-report failed", "stderr": p.stderr[-500:]}
+        return res
+    facts = open(os.path.join(R.LEAN, "Fosite", "Gen", "Facts.lean")).read()
+    import re
+    methods = re.findall(r'name := "(\w+)".*?\n\s*events := \[(.*?)\] \}', facts, flags=re.S)
+    res["evaluations"] = len(methods)
+    for name, ev in methods:
+        if ".acq" in ev:
+            res["distinct_nontrivial"].add(name)
+    res["samples"] = [{"method": n, "events": e[:200]} for n, e in methods[:4]] + [{"report": l} for l in lines[:8]]
+    hist = {}
+    for l in lines:
+        f = l.split(" ")
+        hist[f[0]] = hist.get(f[0], 0) + 1
+        sig = None
+        if f[0] == "DISCIPLINE":
+            sig = "C19:unprotected-access:%s:%s:%s" % (f[1], f[4], f[3])
+        elif f[0] == "GETTER":
+            sig = "C19:getter-assigns-field:%s:%s" % (f[1], f[2])
+        elif f[0] in ("BALANCE", "REACQUIRE", "SHAPE", "UNRESOLVED"):
+            sig = "C19:%s:%s" % (f[0].lower(), ":".join(f[1:]))
+        elif f[0] == "ACYCLIC" and f[1] != "true":
+            sig = "C19:lock-order-cycle"
+        if sig:
+            res["monitor_hits"].append({"signature": sig, "driver": "lockfacts", "ops": [l], "impl": [l],
+                                        "what": "lock-discipline checker over the regenerated source facts reports: " + l})
+    res["histogram"] = hist
+    res["traces"] = 0
+    return res
+
+
+def run_stress(R, pid, d, work, seed, tier):
+    """C19 support: free-running -race stress of one provider over one raw MemoryStore; every distinct race /
+    fatal error / deadlock / panic is a violation signature with the frames as replay."""
+    import subprocess
+    res = dict(evaluations=0, distinct_nontrivial=set(), samples=[], monitor_hits=[], histogram={}, traces=0)
+    os.makedirs(work, exist_ok=True)
+    binp = os.path.join(R.WORK, "stress.test")
+    with R.Lock("gobuild"):
+        rc, out = R.sh([R.GO, "test", "-race", "-c", "-o", binp, "./drive"], cwd=R.HARNESS, env=R.goenv())
+    if rc != 0:
+        res["corr_diff"] = {"driver": "stress", "error": "race-enabled harness build failed", "log": out[-1500:]}
+        return res
+    outp = os.path.join(work, "stress.sum")
+    env = R.goenv()
+    env.update(FZ_STRESS="1", FZ_STRESS_SECONDS=str(d.get("seconds", {}).get(tier, 4)), FZ_STRESS_OUT=outp, VERIF_SEED=str(seed),
+               FZ_STRESS_RAW=os.path.join(work, "stress.raw"))
+    rc, out = R.sh([binp, "-test.run", "^TestStressSummary$", "-test.v"], cwd=work, env=env, timeout=3000)
+    lines = open(outp).read().splitlines() if os.path.exists(outp) else []
+    cur = None
+    ops = 0
+    for l in lines:
+        if l.startswith(("RACE ", "FATAL ", "PANIC ", "DEADLOCK ", "RAW-RACE ", "RAW-FATAL ", "RAW-PANIC ", "RAW-DEADLOCK ")):
+            f = l.split(" ")
+            rawstore = f[0].startswith("RAW-")
+            kind = f[0][4:] if rawstore else f[0]
+            if kind == "RACE":
+                a, b = sorted(f[1:3])
+                sig = "C19:race:%s:%s" % (a, b)
+            else:
+                sig = "C19:%s:%s" % (kind.lower(), "_".join(f[1:])[:120])
+            # The run over the store as it is (requests shared by pointer between the callers that look up the
+            # same record): a race or crash whose accesses are both outside the store's own methods and the
+            # Config getters is the recorded aliasing finding; anything inside them is a locking defect.
+            own = ("storage.(*MemoryStore)", "fosite.(*Config)", "token/hmac")
+            if rawstore and kind in ("RACE", "FATAL", "PANIC") and not any(x.startswith(own) for x in f[1:3]) \
+                    and not any(o in l for o in own[:2]):
+                sig = "C19:stored-request-shared-between-concurrent-requests"
+            cur = {"signature": sig, "driver": "stress", "ops": [l], "impl": [], "what": "observed under go test -race: " + l}
+            res["monitor_hits"].append(cur)
+        elif l.startswith("STRESS "):
+            for kv in l.split(" "):
+                if kv.startswith("ops="):
+                    try:
+                        ops += int(kv[4:])
+                    except ValueError:
+                        pass
+            res["samples"].append({"stress": l[:300]})
+        elif cur is not None and l.strip():
+            cur["impl"].append(l.strip()[:200])
+    res["evaluations"] = ops
+    res["traces"] = ops
+    res["distinct_nontrivial"] = set(["stress-op-%d" % i for i in range(min(ops, 2))])
+    if rc != 0 and not lines:
+        res["corr_diff"] = {"driver": "stress", "error": "stress run failed", "log": out[-1500:]}
+    return res
+
+
 def run_driver_check(R, pid, d, work, seed, tier, search=False):
+    if d["kind"] == "lockfacts":
+        return run_lock_facts(R, pid, d, work, seed, tier)
+    if d["kind"] == "stress":
+        return run_stress(R, pid, d, work, seed, tier)
     if d["kind"] == "pure":
         return run_pure(R, pid, d, work, seed, tier)
     if d["kind"] == "hist":
